@@ -138,5 +138,6 @@ int main(void) {
         else printf("? BADCMD\n");
         fflush(stdout);
     }
+    free(line);
     return 0;
 }
